@@ -111,6 +111,7 @@ type world struct {
 	other   *accountdata.AccountKeys
 	netKey  crypto.PrivKey
 	tmp     string
+	hangs   int // sequences stop being generated once a few of them wedged an object (each costs a guard)
 }
 
 func hexs(b []byte) string {
@@ -1024,19 +1025,30 @@ func Run(r *corr.Run) {
 	// stateful multi-message sequences (tree, acl)
 	tf := w.newTreeFixture()
 	defer tf.close()
-	for k := 1; k <= 6; k++ {
+	for k := 1; k <= 8 && w.hangs < 3; k++ {
 		w.treeSequence(tf, k, false)
 		w.treeSequence(tf, k, true)
 	}
+	for k := 1; k <= 12 && w.hangs < 3; k++ { // refused-by-the-validator batches, then valid changes / local writes
+		w.verifTreeSequence(tf, k, k%3 == 0)
+	}
+	ps := w.newPsWorld()
+	for k := 1; k <= 7 && w.hangs < 3; k++ {
+		w.pubsubSequence(ps, k)
+	}
 	seqs := 0
 	seqDeadline := time.Now().Add(time.Duration(r.Pick(8, 120)) * time.Second)
-	for (r.TimeLeft() || time.Now().Before(seqDeadline)) && seqs < r.Pick(400, 20000) && time.Now().Before(seqDeadline) {
+	for (r.TimeLeft() || time.Now().Before(seqDeadline)) && seqs < r.Pick(400, 20000) && time.Now().Before(seqDeadline) && w.hangs < 3 {
 		seqs++
 		switch k := r.Intn(20); {
-		case k < 13:
+		case k < 9:
 			w.treeSequence(tf, 0, r.Chance(50))
-		case k < 17:
+		case k < 13:
+			w.verifTreeSequence(tf, 0, r.Chance(50))
+		case k < 15:
 			w.aclSequence()
+		case k < 18:
+			w.pubsubSequence(ps, 0)
 		default:
 			w.kvSequence(tf)
 		}
